@@ -1,17 +1,31 @@
 /-
 C17 — U1000 verdicts are order-independent, monotone, merged over variants.
 
+graph (Verif/C07/Graph.lean: color / colorAndQuieten / Results)
   results_perm_invariant    verdicts do not depend on node numbering or on the order (or
                             multiplicity) of edges: any isomorphism of use/own graphs that
                             fixes the root preserves every verdict
   results_edge_order_invariant   special case: same nodes, edge lists equal as sets
-  add_use_monotone          adding a use edge never removes anything from Used
+  iso_check_sound           the executable check `isoHyp` (run on the real graphs of a package
+                            and of its permuted copy) implies the hypotheses, hence equal verdicts
+  used_mono_embed           a graph that embeds into another (root to root, use edges to use
+                            edges) has its Used set mapped into the other's Used set
+  embed_check_sound         the executable check `embedHyp` implies that
+  add_uses_monotone / add_use_monotone    adding use edges never removes anything from Used
   add_use_target_used       … and if the edge starts at a used node (or the root) its target is Used
-  reported_iff              variant merge: reported k ↔ (∃ v allowed, k ∈ unused v) ∧ ∀ v, k ∉ used v
+builder (Build.lean: node / addUse / addOwned / use / see as a fold over the calls)
+  build_wf                  the built graph is well-formed (the hypothesis `wf` of everything above)
+  build_used_iff            object o is Used iff o is reachable from nil over the surviving `use` calls
+  build_perm_invariant      the verdict of every object depends only on the SET of calls
+  build_mono / build_add_use_monotone / build_add_use_target_used
+merge (Model.lean: the `used` map / `unuseds` loop of lintcmd.lint)
+  reported_iff              reported k ↔ (∃ v allowed, k ∈ unused v) ∧ ∀ v, k ∉ used v
+  reported_only_if_unused_everywhere
   merge_order_independent   the reported keys (with multiplicity) do not depend on variant order
 -/
 import Verif.C07.Theorems
 import Verif.C17.Model
+import Verif.C17.Lemmas
 namespace Verif.C17
 open Verif.C07 Verif.C07.Graph
 
@@ -123,37 +137,37 @@ theorem results_edge_order_invariant {g g' : Graph} (h : g.wf = true) (h' : g'.w
   results_perm_invariant h h' id id hN rfl (fun _ ha => ⟨ha, rfl⟩) (fun _ hb => ⟨hb, rfl⟩)
     (fun _ _ _ _ => huses _ _) (fun _ _ _ _ => howns _ _)
 
+
+/-- **Soundness of the executable isomorphism check.**  When `isoHyp g g' f finv` evaluates to
+`true` (the driver runs it on the dumped graphs of the real analyzer), every node keeps its
+verdict under the renumbering `f`. -/
+theorem iso_check_sound {g g' : Graph} (h : g.wf = true) (h' : g'.wf = true) (f finv : List Nat)
+    (hc : isoHyp g g' f finv = true) : ∀ n, n < g.N → g'.verdict (f.getD n 0) = g.verdict n := by
+  unfold isoHyp at hc
+  simp only [Bool.and_eq_true, beq_iff_eq, List.all_eq_true, List.mem_range, decide_eq_true_eq,
+    List.contains_iff_mem] at hc
+  obtain ⟨⟨⟨hN, h0⟩, hbij⟩, hedge⟩ := hc
+  apply results_perm_invariant h h' (fun a => f.getD a 0) (fun b => finv.getD b 0) hN h0
+  · intro a ha
+    exact ⟨(hbij a ha).1.1.1, (hbij a ha).1.1.2⟩
+  · intro b hb
+    exact ⟨(hbij b hb).1.2, (hbij b hb).2⟩
+  · intro a b ha hb
+    constructor
+    · intro hm
+      have := (hedge a ha).1.1.2 _ hm
+      rwa [(hbij b hb).1.1.2] at this
+    · intro hm
+      exact (hedge a ha).1.1.1 b hm
+  · intro a b ha hb
+    constructor
+    · intro hm
+      have := (hedge a ha).2 _ hm
+      rwa [(hbij b hb).1.1.2] at this
+    · intro hm
+      exact (hedge a ha).1.2 b hm
+
 /-! ### graph: monotonicity -/
-
-theorem N_addUse (g : Graph) (x y : Nat) : (addUse g x y).N = g.N := by
-  simp [addUse, Graph.N]
-
-theorem usesOf_addUse (g : Graph) (x y a : Nat) :
-    (addUse g x y).usesOf a = if a = x ∧ x < g.N then g.usesOf a ++ [y] else g.usesOf a := by
-  unfold addUse Graph.usesOf Graph.N
-  simp only [List.getD_eq_getElem?_getD, List.getElem?_modify]
-  by_cases hax : x = a
-  · subst hax
-    by_cases hlt : x < g.nodes.length
-    · simp [hlt]
-    · simp [hlt]
-  · have : ¬ (a = x ∧ x < g.nodes.length) := fun hh => hax hh.1.symm
-    simp [hax, this]
-
-theorem ownsOf_addUse (g : Graph) (x y a : Nat) : (addUse g x y).ownsOf a = g.ownsOf a := by
-  unfold addUse Graph.ownsOf
-  simp only [List.getD_eq_getElem?_getD, List.getElem?_modify]
-  by_cases hax : x = a
-  · subst hax
-    cases hq : g.nodes[x]? <;> simp
-  · simp [hax]
-
-theorem uses_subset_addUse (g : Graph) (x y : Nat) : ∀ a b, b ∈ g.usesOf a → b ∈ (addUse g x y).usesOf a := by
-  intro a b hb
-  rw [usesOf_addUse]
-  split
-  · exact List.mem_append_left _ hb
-  · exact hb
 
 /-- generic form: a graph with more use edges has a larger Used set -/
 theorem used_mono {g g' : Graph} (h : g.wf = true) (h' : g'.wf = true)
@@ -163,32 +177,57 @@ theorem used_mono {g g' : Graph} (h : g.wf = true) (h' : g'.wf = true)
   have := (used_iff_reachable h n).1 hn
   exact (used_iff_reachable h' n).2 ⟨this.1, Reach.mono hsub this.2⟩
 
-theorem wf_addUse {g : Graph} (h : g.wf = true) (x y : Nat) (hy : y < g.N) : (addUse g x y).wf = true := by
-  have hu := wf_uses h
-  have ho := wf_owns h
-  unfold Graph.wf
-  simp only [Bool.and_eq_true, List.all_eq_true, decide_eq_true_eq]
-  refine ⟨by rw [N_addUse]; exact wf_pos h, ?_⟩
-  intro nd hnd
-  obtain ⟨i, hi, rfl⟩ := List.getElem_of_mem hnd
-  have hi' : i < g.N := by simpa [addUse, Graph.N] using hi
-  have e1 : (addUse g x y).usesOf i = ((addUse g x y).nodes[i]).uses := by
-    simp [Graph.usesOf, List.getD_eq_getElem?_getD, List.getElem?_eq_getElem hi]
-  have e2 : (addUse g x y).ownsOf i = ((addUse g x y).nodes[i]).owns := by
-    simp [Graph.ownsOf, List.getD_eq_getElem?_getD, List.getElem?_eq_getElem hi]
-  rw [N_addUse]
-  constructor
-  · intro m hm
-    rw [← e1, usesOf_addUse] at hm
-    split at hm
-    · rcases List.mem_append.1 hm with hm | hm
-      · exact hu _ _ hm
-      · have : m = y := by simpa using hm
-        omega
-    · exact hu _ _ hm
-  · intro m hm
-    rw [← e2, ownsOf_addUse] at hm
-    exact ho _ _ hm
+
+/-- **Monotonicity along an embedding.**  If `f` maps the nodes of `g` into those of `g'`, the
+root to the root and nothing else to the root, and every use edge of `g` to a use edge of
+`g'`, then every Used node of `g` is mapped to a Used node of `g'` (whatever else `g'`
+contains: more nodes, more use edges, other own edges). -/
+theorem used_mono_embed {g g' : Graph} (h : g.wf = true) (h' : g'.wf = true) (f : Nat → Nat)
+    (h0 : f 0 = 0) (hnz : ∀ a, a < g.N → a ≠ 0 → f a ≠ 0)
+    (huses : ∀ a b, a < g.N → b ∈ g.usesOf a → f b ∈ g'.usesOf (f a)) :
+    ∀ n, n ∈ g.results.used → f n ∈ g'.results.used := by
+  intro n hn
+  obtain ⟨hn0, r⟩ := (used_iff_reachable h n).1 hn
+  have hnN : n < g.N := reach_lt h (wf_pos h) r
+  have := (Reach.map (adj := g.usesOf) (adj' := g'.usesOf) f (fun a => a < g.N)
+    (fun a b _ hb => wf_uses h a b hb) huses (wf_pos h) r).1
+  rw [h0] at this
+  exact (used_iff_reachable h' (f n)).2 ⟨hnz n hnN hn0, this⟩
+
+/-- **Soundness of the executable embedding check** (run on the real graphs of a package and
+of the package with one added reference). -/
+theorem embed_check_sound {g g' : Graph} (h : g.wf = true) (h' : g'.wf = true) (f : List Nat)
+    (hc : embedHyp g g' f = true) : ∀ n, n ∈ g.results.used → f.getD n 0 ∈ g'.results.used := by
+  unfold embedHyp at hc
+  simp only [Bool.and_eq_true, beq_iff_eq, List.all_eq_true, List.mem_range, Bool.or_eq_true,
+    bne_iff_ne, ne_eq, List.contains_iff_mem] at hc
+  obtain ⟨h0, hall⟩ := hc
+  apply used_mono_embed h h' (fun a => f.getD a 0) h0
+  · intro a ha ha0
+    rcases (hall a ha).1 with h1 | h1
+    · exact absurd h1 ha0
+    · exact h1
+  · intro a b ha hb
+    exact (hall a ha).2 b hb
+
+theorem wf_addUses {g : Graph} (h : g.wf = true) (es : List (Nat × Nat)) (hes : ∀ e, e ∈ es → e.2 < g.N) :
+    (addUses g es).wf = true ∧ (addUses g es).N = g.N ∧ ∀ a b, b ∈ g.usesOf a → b ∈ (addUses g es).usesOf a := by
+  induction es generalizing g with
+  | nil => exact ⟨h, rfl, fun _ _ hb => hb⟩
+  | cons e rest ih =>
+    have hy : e.2 < g.N := hes e List.mem_cons_self
+    have hw := wf_addUse h e.1 e.2 hy
+    obtain ⟨i1, i2, i3⟩ := ih hw (fun e' he' => by rw [N_addUse]; exact hes e' (List.mem_cons_of_mem _ he'))
+    refine ⟨i1, by rw [← N_addUse g e.1 e.2]; exact i2, ?_⟩
+    intro a b hb
+    exact i3 a b (uses_subset_addUse g e.1 e.2 a b hb)
+
+/-- **Monotonicity, several references.**  Adding any number of use edges (whatever their
+sources) never turns a Used object into a non-Used one. -/
+theorem add_uses_monotone {g : Graph} (h : g.wf = true) (es : List (Nat × Nat)) (hes : ∀ e, e ∈ es → e.2 < g.N) :
+    ∀ n, n ∈ g.results.used → n ∈ (addUses g es).results.used := by
+  obtain ⟨hw, _, hsub⟩ := wf_addUses h es hes
+  exact used_mono h hw hsub
 
 /-- **Monotonicity.**  Adding a use edge `x → y` never turns a Used object into a
 non-Used one (whatever `x` is — in particular when `x` is itself used). -/
@@ -208,6 +247,267 @@ theorem add_use_target_used {g : Graph} (h : g.wf = true) (x y : Nat) (hy : y < 
   refine ⟨hy0, .step (Reach.mono (uses_subset_addUse g x y) hxr) ?_⟩
   rw [usesOf_addUse, if_pos ⟨rfl, hxN⟩]
   simp
+
+
+/-! ### the graph builder: verdicts depend only on the set of calls -/
+
+/-- object-level use relation of the surviving calls: `b ∈ adjU K a ↔ use b a ∈ K` -/
+def adjU (K : List Event) (a : Nat) : List Nat :=
+  K.filterMap fun e => match e with
+    | .use u w => if w = a then some u else none
+    | .see _ _ => none
+
+theorem mem_adjU (K : List Event) (a b : Nat) : b ∈ adjU K a ↔ Event.use b a ∈ K := by
+  unfold adjU
+  rw [List.mem_filterMap]
+  constructor
+  · rintro ⟨e, he, hm⟩
+    cases e with
+    | use u w =>
+      by_cases hw : w = a
+      · simp only [hw, if_true, Option.some.injEq] at hm
+        subst hm hw; exact he
+      · simp [hw] at hm
+    | see _ _ => simp at hm
+  · intro he
+    exact ⟨_, he, by simp⟩
+
+theorem graph_N (s : BState) : s.graph.N = s.nodes.length := rfl
+
+theorem wf_of_edges (g : Graph) (hpos : 0 < g.N) (hu : ∀ a m, m ∈ g.usesOf a → m < g.N)
+    (ho : ∀ a m, m ∈ g.ownsOf a → m < g.N) : g.wf = true := by
+  unfold Graph.wf
+  simp only [Bool.and_eq_true, List.all_eq_true, decide_eq_true_eq]
+  refine ⟨hpos, ?_⟩
+  intro nd hnd
+  obtain ⟨i, hi, rfl⟩ := List.getElem_of_mem hnd
+  have e1 : g.usesOf i = (g.nodes[i]).uses := by
+    simp [Graph.usesOf, List.getD_eq_getElem?_getD, List.getElem?_eq_getElem hi]
+  have e2 : g.ownsOf i = (g.nodes[i]).owns := by
+    simp [Graph.ownsOf, List.getD_eq_getElem?_getD, List.getElem?_eq_getElem hi]
+  constructor
+  · intro m hm
+    rw [← e1] at hm
+    exact hu _ _ hm
+  · intro m hm
+    rw [← e2] at hm
+    exact ho _ _ hm
+
+/-- **The built graph is well-formed**: the hypothesis `wf` of the graph theorems holds for
+whatever the builder produces. -/
+theorem build_wf (cfg : Cfg) (es : List Event) : (build cfg es).graph.wf = true := by
+  obtain ⟨E, hi, _⟩ := build_inv cfg es
+  apply wf_of_edges
+  · rw [graph_N, hi.wf.len]; omega
+  · intro a m hm
+    obtain ⟨u, w, he, _, rfl⟩ := (hi.uses_iff a m).1 hm
+    exact idOf_lt hi.wf (hi.reg _ he u (by simp [Event.mentions]))
+  · intro a m hm
+    obtain ⟨o, w, he, _, _, rfl⟩ := (hi.owns_iff a m).1 hm
+    exact idOf_lt hi.wf (hi.reg _ he o (by simp [Event.mentions]))
+
+/-- node-level reachability in the built graph is object-level reachability over the calls -/
+theorem build_reach {s : BState} {E : List Event} (hi : Inv s E) :
+    (∀ n, Reach s.graph.usesOf 0 n → ∃ x, s.Reg x ∧ s.idOf x = n ∧ Reach (adjU E) 0 x) ∧
+    (∀ x, Reach (adjU E) 0 x → s.Reg x ∧ Reach s.graph.usesOf 0 (s.idOf x)) := by
+  constructor
+  · intro n r
+    induction r with
+    | refl => exact ⟨0, .inl rfl, by simp [BState.idOf], .refl 0⟩
+    | step _ hc ih =>
+      obtain ⟨x, hx, rfl, rx⟩ := ih
+      obtain ⟨u, w, he, hw, rfl⟩ := (hi.uses_iff _ _).1 hc
+      have hwx : w = x := idOf_inj (hi.reg _ he w (by simp [Event.mentions])) hx hi.wf hw
+      subst hwx
+      exact ⟨u, hi.reg _ he u (by simp [Event.mentions]), rfl, .step rx ((mem_adjU E w u).2 he)⟩
+  · intro x r
+    induction r with
+    | refl => exact ⟨.inl rfl, by simp only [BState.idOf, if_true]; exact .refl 0⟩
+    | step _ hc ih =>
+      have he := (mem_adjU E _ _).1 hc
+      refine ⟨hi.reg _ he _ (by simp [Event.mentions]), .step ih.2 ?_⟩
+      exact (hi.uses_iff _ _).2 ⟨_, _, he, rfl, rfl⟩
+
+theorem reach_congr {K K' : List Event} (h : ∀ e, e ∈ K → e ∈ K') {a b : Nat} (r : Reach (adjU K) a b) :
+    Reach (adjU K') a b :=
+  Reach.mono (fun x y hy => (mem_adjU K' x y).2 (h _ ((mem_adjU K x y).1 hy))) r
+
+/-- **Used, for the builder.**  Whatever the order of the calls, object `o` ends up Used iff
+it is reachable from nil (the root) over the `use` calls that survive the early returns. -/
+theorem build_used_iff (cfg : Cfg) (es : List Event) (o : Nat) :
+    objVerdict cfg es o = some .used ↔ o ≠ 0 ∧ Reach (adjU (kept cfg es)) 0 o := by
+  obtain ⟨E, hi, hE⟩ := build_inv cfg es
+  obtain ⟨r1, r2⟩ := build_reach hi
+  have hwf := build_wf cfg es
+  unfold objVerdict
+  simp only []
+  constructor
+  · intro hv
+    by_cases hc : o ≠ 0 ∧ o ∈ (build cfg es).objs
+    · rw [if_pos hc] at hv
+      have hv' : (build cfg es).graph.verdict ((build cfg es).idOf o) = .used := by
+        injection hv
+      obtain ⟨x, hx, hid, rx⟩ := r1 _ ((verdict_used_iff hwf _).1 hv')
+      have : x = o := idOf_inj hx (.inr hc.2) hi.wf hid
+      subst this
+      exact ⟨hc.1, reach_congr (fun e he => (hE e).1 he) rx⟩
+    · rw [if_neg hc] at hv; cases hv
+  · rintro ⟨h0, r⟩
+    have r' : Reach (adjU E) 0 o := reach_congr (fun e he => (hE e).2 he) r
+    obtain ⟨hreg, rn⟩ := r2 o r'
+    have hm : o ∈ (build cfg es).objs := by
+      rcases hreg with h | h
+      · exact absurd h h0
+      · exact h
+    rw [if_pos ⟨h0, hm⟩, (verdict_used_iff hwf _).2 rn]
+
+/-- **Monotonicity, for the builder.**  More calls of any kind, in any positions of the walk:
+every object that was Used stays Used. -/
+theorem build_mono (cfg : Cfg) {es es' : List Event} (hsub : ∀ e, e ∈ es → e ∈ es') (o : Nat)
+    (h : objVerdict cfg es o = some .used) : objVerdict cfg es' o = some .used := by
+  rw [build_used_iff] at h ⊢
+  refine ⟨h.1, reach_congr ?_ h.2⟩
+  intro e he
+  simp only [kept, List.mem_filter] at he ⊢
+  exact ⟨hsub e he.1, he.2⟩
+
+/-- the statement's clause: one added reference `use y x`, made anywhere during the walk -/
+theorem build_add_use_monotone (cfg : Cfg) (es₁ es₂ : List Event) (x y o : Nat)
+    (h : objVerdict cfg (es₁ ++ es₂) o = some .used) :
+    objVerdict cfg (es₁ ++ Event.use y x :: es₂) o = some .used :=
+  build_mono cfg (by
+    intro e he
+    rcases List.mem_append.1 he with h1 | h1
+    · exact List.mem_append_left _ h1
+    · exact List.mem_append_right _ (List.mem_cons_of_mem _ h1)) o h
+
+/-- … and when the referring object `x` is itself Used (or is nil: a reference from the
+package) and the call survives the early returns, the referenced object is Used afterwards -/
+theorem build_add_use_target_used (cfg : Cfg) (es₁ es₂ : List Event) (x y : Nat)
+    (hk : keep cfg (.use y x) = true)
+    (hx : x = 0 ∨ objVerdict cfg (es₁ ++ es₂) x = some .used) :
+    objVerdict cfg (es₁ ++ Event.use y x :: es₂) y = some .used := by
+  have hy0 : y ≠ 0 := by
+    simp only [keep, Bool.and_eq_true, bne_iff_ne, ne_eq] at hk
+    exact hk.1.1.1
+  have hmem : Event.use y x ∈ kept cfg (es₁ ++ Event.use y x :: es₂) := by
+    simp only [kept, List.mem_filter]
+    exact ⟨List.mem_append_right _ List.mem_cons_self, hk⟩
+  rw [build_used_iff]
+  refine ⟨hy0, .step ?_ ((mem_adjU _ x y).2 hmem)⟩
+  rcases hx with rfl | hx
+  · exact .refl 0
+  · exact ((build_used_iff _ _ _).1 (build_add_use_monotone cfg es₁ es₂ x y x hx)).2
+
+/-- the object with node id `a` -/
+def BState.objAt (s : BState) (a : Nat) : Nat := if a = 0 then 0 else s.objs.getD (a - 1) 0
+
+theorem objAt_spec {s : BState} (hw : s.WF) {a : Nat} (ha : a < s.nodes.length) :
+    s.Reg (s.objAt a) ∧ s.idOf (s.objAt a) = a := by
+  unfold BState.objAt
+  by_cases h0 : a = 0
+  · subst h0; exact ⟨.inl rfl, by simp [BState.idOf]⟩
+  · rw [if_neg h0]
+    have hl : a - 1 < s.objs.length := by have := hw.len; omega
+    have hg : s.objs.getD (a - 1) 0 = s.objs[a - 1] := by
+      simp [List.getD_eq_getElem?_getD, List.getElem?_eq_getElem hl]
+    rw [hg]
+    have hm : s.objs[a - 1] ∈ s.objs := List.getElem_mem hl
+    have hnz : s.objs[a - 1] ≠ 0 := fun h => hw.nz (h ▸ hm)
+    refine ⟨.inr hm, ?_⟩
+    simp only [BState.idOf, hnz, if_false]
+    rw [hw.nodup.idxOf_getElem (a - 1) hl]
+    omega
+
+theorem objAt_idOf {s : BState} (hw : s.WF) {x : Nat} (hx : s.Reg x) : s.objAt (s.idOf x) = x := by
+  have h1 := objAt_spec hw (idOf_lt hw hx)
+  exact idOf_inj h1.1 hx hw h1.2
+
+/-- **Order independence, for the builder.**  Two walks that make the same SET of calls — in
+any order, any number of times each (files permuted, declarations permuted, Go maps iterated
+in another order, the analysis repeated) — give every object the same verdict. -/
+theorem build_perm_invariant (cfg : Cfg) {es es' : List Event} (hset : ∀ e, e ∈ es ↔ e ∈ es') (o : Nat) :
+    objVerdict cfg es o = objVerdict cfg es' o := by
+  obtain ⟨E, hi, hE⟩ := build_inv cfg es
+  obtain ⟨E', hi', hE'⟩ := build_inv cfg es'
+  have hK : ∀ e, e ∈ kept cfg es ↔ e ∈ kept cfg es' := by
+    intro e; simp only [kept, List.mem_filter, hset]
+  have hEE : ∀ e, e ∈ E ↔ e ∈ E' := fun e => by rw [hE, hE', hK]
+  have hobjs : ∀ x, x ∈ (build cfg es).objs ↔ x ∈ (build cfg es').objs := by
+    intro x; rw [build_objs, build_objs]
+    constructor
+    · rintro ⟨h0, e, he, hm⟩; exact ⟨h0, e, (hK e).1 he, hm⟩
+    · rintro ⟨h0, e, he, hm⟩; exact ⟨h0, e, (hK e).2 he, hm⟩
+  generalize hs : build cfg es = s at *
+  generalize hs' : build cfg es' = s' at *
+  have hreg : ∀ x, s.Reg x ↔ s'.Reg x := by
+    intro x; simp only [BState.Reg, hobjs]
+  have hlen : s'.nodes.length = s.nodes.length := by
+    have := ((List.perm_ext_iff_of_nodup hi.wf.nodup hi'.wf.nodup).2 hobjs).length_eq
+    rw [hi.wf.len, hi'.wf.len, this]
+  have hwf : s.graph.wf = true := by rw [← hs]; exact build_wf cfg es
+  have hwf' : s'.graph.wf = true := by rw [← hs']; exact build_wf cfg es'
+  have key := results_perm_invariant hwf hwf' (fun a => s'.idOf (s.objAt a)) (fun b => s.idOf (s'.objAt b))
+    hlen (by simp [BState.objAt, BState.idOf])
+    (by
+      intro a ha
+      have h1 := objAt_spec hi.wf (show a < s.nodes.length from ha)
+      have h1' := (hreg _).1 h1.1
+      refine ⟨by rw [graph_N, ← hlen]; exact idOf_lt hi'.wf h1', ?_⟩
+      show s.idOf (s'.objAt (s'.idOf (s.objAt a))) = a
+      rw [objAt_idOf hi'.wf h1', h1.2])
+    (by
+      intro b hb
+      have hb' : b < s'.nodes.length := by rw [hlen]; exact hb
+      have h1 := objAt_spec hi'.wf hb'
+      have h1' := (hreg _).2 h1.1
+      refine ⟨idOf_lt hi.wf h1', ?_⟩
+      show s'.idOf (s.objAt (s.idOf (s'.objAt b))) = b
+      rw [objAt_idOf hi.wf h1', h1.2])
+    (by
+      intro a b ha hb
+      have ha1 := objAt_spec hi.wf (show a < s.nodes.length from ha)
+      have hb1 := objAt_spec hi.wf (show b < s.nodes.length from hb)
+      show s'.idOf (s.objAt b) ∈ s'.U (s'.idOf (s.objAt a)) ↔ b ∈ s.U a
+      rw [hi'.uses_iff, hi.uses_iff]
+      constructor
+      · rintro ⟨u, w, he, hw, hu⟩
+        have ew : w = s.objAt a := idOf_inj (hi'.reg _ he w (by simp [Event.mentions])) ((hreg _).1 ha1.1) hi'.wf hw
+        have eu : u = s.objAt b := idOf_inj (hi'.reg _ he u (by simp [Event.mentions])) ((hreg _).1 hb1.1) hi'.wf hu
+        exact ⟨u, w, (hEE _).2 he, by rw [ew, ha1.2], by rw [eu, hb1.2]⟩
+      · rintro ⟨u, w, he, hw, hu⟩
+        have rw' := hi.reg _ he w (by simp [Event.mentions])
+        have ru := hi.reg _ he u (by simp [Event.mentions])
+        refine ⟨u, w, (hEE _).1 he, ?_, ?_⟩
+        · rw [← hw, objAt_idOf hi.wf rw']
+        · rw [← hu, objAt_idOf hi.wf ru])
+    (by
+      intro a b ha hb
+      have ha1 := objAt_spec hi.wf (show a < s.nodes.length from ha)
+      have hb1 := objAt_spec hi.wf (show b < s.nodes.length from hb)
+      show s'.idOf (s.objAt b) ∈ s'.O (s'.idOf (s.objAt a)) ↔ b ∈ s.O a
+      rw [hi'.owns_iff, hi.owns_iff]
+      constructor
+      · rintro ⟨u, w, he, hw0, hw, hu⟩
+        have ew : w = s.objAt a := idOf_inj (hi'.reg _ he w (by simp [Event.mentions])) ((hreg _).1 ha1.1) hi'.wf hw
+        have eu : u = s.objAt b := idOf_inj (hi'.reg _ he u (by simp [Event.mentions])) ((hreg _).1 hb1.1) hi'.wf hu
+        exact ⟨u, w, (hEE _).2 he, hw0, by rw [ew, ha1.2], by rw [eu, hb1.2]⟩
+      · rintro ⟨u, w, he, hw0, hw, hu⟩
+        have rw' := hi.reg _ he w (by simp [Event.mentions])
+        have ru := hi.reg _ he u (by simp [Event.mentions])
+        refine ⟨u, w, (hEE _).1 he, hw0, ?_, ?_⟩
+        · rw [← hw, objAt_idOf hi.wf rw']
+        · rw [← hu, objAt_idOf hi.wf ru])
+  unfold objVerdict
+  simp only [hs, hs']
+  by_cases hc : o ≠ 0 ∧ o ∈ s.objs
+  · have hc' : o ≠ 0 ∧ o ∈ s'.objs := ⟨hc.1, (hobjs o).1 hc.2⟩
+    rw [if_pos hc, if_pos hc']
+    have := key (s.idOf o) (idOf_lt hi.wf (.inr hc.2))
+    simp only [objAt_idOf hi.wf (.inr hc.2)] at this
+    rw [this]
+  · have hc' : ¬ (o ≠ 0 ∧ o ∈ s'.objs) := fun h => hc ⟨h.1, (hobjs o).2 h.2⟩
+    rw [if_neg hc, if_neg hc']
 
 /-! ### variant merge -/
 
@@ -360,9 +660,53 @@ def swp : Nat → Nat
 
 example : ex1'.wf = true := by decide
 example : ∀ n, n < 7 → ex1'.verdict (swp n) = ex1.verdict n := by decide
+-- the hypotheses of `results_perm_invariant` are satisfiable by a non-identity renumbering of a
+-- graph with used, unused and quiet nodes, duplicate edges and another edge order
+example : ∀ n, n < 7 → ex1'.verdict (swp n) = ex1.verdict n :=
+  results_perm_invariant (g := ex1) (g' := ex1') (by decide) (by decide) swp swp rfl rfl
+    (by decide) (by decide)
+    (fun a b ha hb => (by decide : ∀ a, a < ex1.N → ∀ b, b < ex1.N →
+      (swp b ∈ ex1'.usesOf (swp a) ↔ b ∈ ex1.usesOf a)) a ha b hb)
+    (fun a b ha hb => (by decide : ∀ a, a < ex1.N → ∀ b, b < ex1.N →
+      (swp b ∈ ex1'.ownsOf (swp a) ↔ b ∈ ex1.ownsOf a)) a ha b hb)
+-- … and so is the executable check, on the same pair
+example : isoHyp ex1 ex1' [0, 2, 1, 6, 4, 5, 3] [0, 2, 1, 6, 4, 5, 3] = true := by decide
+example : ∀ n, n < 7 → ex1'.verdict ([0, 2, 1, 6, 4, 5, 3].getD n 0) = ex1.verdict n :=
+  iso_check_sound (g := ex1) (g' := ex1') (by decide) (by decide) [0, 2, 1, 6, 4, 5, 3] [0, 2, 1, 6, 4, 5, 3] (by decide)
+-- the check is not trivially true: dropping the edge 6 → 2 of ex1 (node 3 of ex1') breaks it
+example : isoHyp ex1 ⟨[⟨[2], []⟩, ⟨[], []⟩, ⟨[1, 1], []⟩, ⟨[], []⟩, ⟨[], [5]⟩, ⟨[], []⟩, ⟨[], [4]⟩]⟩
+    [0, 2, 1, 6, 4, 5, 3] [0, 2, 1, 6, 4, 5, 3] = false := by decide
+-- embedding: ex1 into ex1 + (1 → 3), identity table; and into a graph with an extra node in front
+example : embedHyp ex1 (addUse ex1 1 3) [0, 1, 2, 3, 4, 5, 6] = true := by decide
+example : ∀ n, n ∈ ex1.results.used → [0, 1, 2, 3, 4, 5, 6].getD n 0 ∈ (addUse ex1 1 3).results.used :=
+  embed_check_sound (g := ex1) (g' := addUse ex1 1 3) (by decide) (by decide) [0, 1, 2, 3, 4, 5, 6] (by decide)
+example : embedHyp ex1 ex1' [0, 2, 1, 6, 4, 5, 3] = true := by decide
+example : embedHyp (addUse ex1 1 3) ex1 [0, 1, 2, 3, 4, 5, 6] = false := by decide
+example : (addUses ex1 [(1, 3), (3, 6)]).results.used = [1, 2, 3, 6] := by decide
 -- adding 1 → 3: 3 becomes used; 4 (owned by the now-used 3) is reported; 5 stays quiet under 4
 example : (addUse ex1 1 3).results = ⟨[1, 2, 3], [4, 6], [5]⟩ := by decide
 example : ex1.results.used = [1, 2] := by decide
+
+/-- a walk: `F` (1) exported and used by the package, calls `g` (2); type `t` (3) unused, owns field
+`a` (4); the same calls again (de-duplicated); a call into another package (dropped) -/
+def evs : List Event :=
+  [.see 1 0, .use 1 0, .see 2 0, .use 2 1, .see 3 0, .see 4 3, .use 2 1, .use 9 1, .use 2 0, .see 0 3]
+def cfgEx : Cfg := ⟨fun o => o != 9, fun _ => false⟩
+
+example : (build cfgEx evs).objs = [1, 2, 3, 4] := by decide
+example : (build cfgEx evs).graph = ⟨[⟨[1, 2], []⟩, ⟨[2], []⟩, ⟨[], []⟩, ⟨[], [4]⟩, ⟨[], []⟩]⟩ := by decide
+example : [1, 2, 3, 4, 9].map (objVerdict cfgEx evs) = [some .used, some .used, some .unused, some .quiet, none] := by decide
+-- another order of the same calls numbers the objects differently …
+example : (build cfgEx evs.reverse).objs = [2, 1, 4, 3] := by decide
+-- … and `build_perm_invariant` applies (its hypothesis is satisfiable by a non-identical order)
+example : ∀ o, objVerdict cfgEx evs o = objVerdict cfgEx evs.reverse o :=
+  build_perm_invariant cfgEx (by intro e; simp)
+-- one added reference from the used object 2 to 3: 3 becomes Used, 1 and 2 stay Used, and the
+-- field 4 of the now-used type is reported
+example : [1, 2, 3, 4].map (objVerdict cfgEx (evs.take 4 ++ Event.use 3 2 :: evs.drop 4)) =
+    [some .used, some .used, some .used, some .unused] := by decide
+example : objVerdict cfgEx (evs.take 4 ++ Event.use 3 2 :: evs.drop 4) 3 = some .used :=
+  build_add_use_target_used cfgEx (evs.take 4) (evs.drop 4) 2 3 (by decide) (.inr (by decide))
 
 def kA : Key := ⟨"p", "a.go", 3, "f"⟩
 def kB : Key := ⟨"p", "a.go", 7, "g"⟩
@@ -374,5 +718,8 @@ def vTest : Variant := ⟨true, [kA], [kB, kC]⟩
 example : reported [vPlain, vTest] = [kB, kB, kC] := by decide
 example : reported [vTest, vPlain] = [kB, kC, kB] := by decide
 example : [vPlain, vTest].Perm [vTest, vPlain] := List.Perm.swap _ _ _
+-- f is unused in the plain variant and used by the tests: not reported; g unused everywhere: reported
+example : kA ∉ reported [vPlain, vTest] ∧ kB ∈ reported [vPlain, vTest] := by decide
+example : kA ∈ reported [vPlain] := by decide
 
 end Verif.C17
